@@ -89,9 +89,16 @@ def work(ctx, item):
             n = rng.choice([1, 2])
             argv += ['--get-aux', str(n)]
             kw['get_aux'] = n
-        want = impl.call(bse.get_basis, disp, **kw)
+        want, printed = impl.call_printed(bse.get_basis, disp, **kw)
+        want_file = want
+        if want[0] == 'ok' and printed and isinstance(want[1], str):
+            # what the API call itself prints while it runs (e.g. "No electron shells for 42" from the auxiliary-basis
+            # generators) is part of both runs: the command line shows it in front of the returned text (with -o the
+            # file holds the returned text only)
+            want = ('ok', printed + want[1])
         replay = {'kind': 'cli', 'argv': argv}
         if rng.random() < 0.2:
+            want = want_file
             fd, path = tempfile.mkstemp(prefix='vcli', suffix='.out')
             os.close(fd)
             try:
